@@ -396,12 +396,18 @@ def class_stream(ck):
     return fails
 
 
-def share_bomb(depth, width=2):
+def _tag_head(n, width=1):
+    """head of tag n written with a 1-, 2-, 4- or 8-byte argument (every width is well-formed CBOR)"""
+    return bytes([0xC0 | {1: 24, 2: 25, 4: 26, 8: 27}[width]]) + n.to_bytes(width, "big")
+
+
+def share_bomb(depth, width=2, tag_width=1):
     """an array whose i-th element is marked shareable (tag 28) and holds `width` references (tag 29) to the previous one:
     about 9 bytes per level, 2^depth leaves once every reference is expanded"""
-    items = [bytes([0xD8, 28, 0x80])]
+    t28, t29 = _tag_head(28, tag_width), _tag_head(29, tag_width)
+    items = [t28 + bytes([0x80])]
     for i in range(depth):
-        items.append(bytes([0xD8, 28, 0x80 + width]) + (bytes([0xD8, 29]) + cbor2.dumps(i)) * width)
+        items.append(t28 + bytes([0x80 + width]) + (t29 + cbor2.dumps(i)) * width)
     return cbor2.dumps([0] * len(items))[:-len(items)] + b"".join(items)
 
 
@@ -411,13 +417,21 @@ def stringref_bomb(n):
     return bytes([0xD9, 0x01, 0x00]) + cbor2.dumps([0] * (refs + 1))[:-(refs + 1)] + cbor2.dumps(b"x" * (n // 2)) + bytes([0xD8, 25, 0x00]) * refs
 
 
+def stringref_bomb_wide(n):
+    """the same with the tag numbers written with 4-byte arguments"""
+    refs = n // 9
+    return _tag_head(256, 4) + cbor2.dumps([0] * (refs + 1))[:-(refs + 1)] + cbor2.dumps(b"x" * (n // 2)) + (_tag_head(25, 4) + bytes([0x00])) * refs
+
+
 def sharing_stream(ck):
     """CBOR value sharing / string references: short inputs whose decoded form refers to one object many times.  Re-serialising
     such a value expands every reference; the parser must answer within time and memory proportional to the INPUT."""
     fails = []
     auth = cbor2.dumps(cbor2.dumps([cbor2.dumps([-16, bytes(32)])]))
     for nm, x in ([(f"value sharing nested {d} deep", share_bomb(d)) for d in ((6, 12, 17, 19) if not ck.deep else (6, 12, 17, 19, 20))]
-                  + [(f"string references, {n} bytes", stringref_bomb(n)) for n in ((600, 6000, 36000) if not ck.deep else (600, 6000, 36000, 50000))]):
+                  + [(f"value sharing nested 18 deep, tag numbers written with {w}-byte arguments", share_bomb(18, tag_width=w)) for w in (2, 4, 8)]
+                  + [(f"string references, {n} bytes", stringref_bomb(n)) for n in ((600, 6000, 36000) if not ck.deep else (600, 6000, 36000, 50000))]
+                  + [("string references, 36000 bytes, tag numbers written with 4-byte arguments", stringref_bomb_wide(36000))]):
         for where, data in (("as the manifest member", bytes([0xD8, 107, 0xA2, 0x02]) + auth + bytes([0x03]) + x),
                             ("as the authentication member", bytes([0xD8, 107, 0xA1, 0x02]) + x),
                             ("inside the wrapped manifest", bytes([0xD8, 107, 0xA2, 0x02]) + auth + bytes([0x03]) + cbor2.dumps(bytes([0xA3, 0x01, 0x01, 0x02, 0x01, 0x03]) + x)),
